@@ -52,7 +52,7 @@ def run(ctx):
     D.rule_first_restart(res, "C01-R4", dm)
     from rules import c04
     for o in c04.run(ctx).obligations:
-        if (o["rule"] == "C04-R3" and o["key"].startswith(("error-bits", "invalid-only-for-protocol-reasons"))) or \
+        if (o["rule"] == "C04-R3" and o["key"].startswith(("error-bits", "invalid-only-for-protocol-reasons", "defined-values-accepted"))) or \
                 (o["rule"] == "C04-R6" and o["key"].startswith("Payload(")):  # (the decoded payload object holds the message's own bytes)
             res.check(o["ok"], "C01-R6", o["key"], o["loc"], o["detail"], o["detail"])
     res.floor("C01-R6", 2)
